@@ -152,18 +152,23 @@ func (f *File) Sync() error {
 	return nil
 }
 
-func (f *File) Readdir(count int) (res []os.FileInfo, err error) {
-	if !f.Info().IsDir() {
-		return nil, &os.PathError{
-			Op:   "readdir",
-			Path: f.fileData.Name(),
-			Err:  errors.New("not a dir"),
-		}
+func (f *File) notDirError() error {
+	return &os.PathError{
+		Op:   "readdir",
+		Path: f.fileData.Name(),
+		Err:  errors.New("not a dir"),
 	}
+}
+
+// readdirFiles returns the next count entries of the directory (all the remaining ones when
+// count <= 0) and their base names.  The names are taken while the directory is locked: a
+// child changes its name only after Rename has taken it out of this directory, under this
+// lock, so a listing never contains a name that was not in the directory.
+func (f *File) readdirFiles(count int) (files []*FileData, names []string, err error) {
 	var outLength int64
 
 	f.fileData.Lock()
-	files := f.fileData.memDir.Files()
+	files = f.fileData.memDir.Files()
 	if f.readDirCount > int64(len(files)) {
 		// entries were removed since the previous call
 		f.readDirCount = int64(len(files))
@@ -182,9 +187,22 @@ func (f *File) Readdir(count int) (res []os.FileInfo, err error) {
 		outLength = int64(len(files))
 	}
 	f.readDirCount += outLength
+	files = files[:outLength]
+	names = make([]string, outLength)
+	for i := range names {
+		_, names[i] = filepath.Split(files[i].name)
+	}
 	f.fileData.Unlock()
 
-	res = make([]os.FileInfo, outLength)
+	return files, names, err
+}
+
+func (f *File) Readdir(count int) (res []os.FileInfo, err error) {
+	if !f.Info().IsDir() {
+		return nil, f.notDirError()
+	}
+	files, _, err := f.readdirFiles(count)
+	res = make([]os.FileInfo, len(files))
 	for i := range res {
 		res[i] = &FileInfo{files[i]}
 	}
@@ -193,11 +211,10 @@ func (f *File) Readdir(count int) (res []os.FileInfo, err error) {
 }
 
 func (f *File) Readdirnames(n int) (names []string, err error) {
-	fi, err := f.Readdir(n)
-	names = make([]string, len(fi))
-	for i, f := range fi {
-		_, names[i] = filepath.Split(f.Name())
+	if !f.Info().IsDir() {
+		return make([]string, 0), f.notDirError()
 	}
+	_, names, err = f.readdirFiles(n)
 	return names, err
 }
 
